@@ -29,7 +29,9 @@ A case (JSON):
          stdio   {"crlf": [bool per line], "cuts": [[byte offsets inside the exchange's block]],
                   "batch": [bool per exchange: all its messages as ONE JSON array line],
                   "blank": [[blank lines written before the k-th line]], "eof": bool (stdout closed after the last block)}
-         json    [{"status", "sess", "batch", "all": bool (body = array of ALL messages of the exchange)}]  per exchange
+         json    [{"status", "sess", "batch", "all": bool (body = array of ALL messages of the exchange),
+                   "ctp": Content-Type parameters (e.g. "; charset=ISO-8859-1": the body is UTF-8 whatever the label says),
+                   "mime": the media type as written (case variants), "hname": "upper" | "title" (header NAMES in that case)}]  per exchange; httpsse likewise, plus "bom": bool
          httpsse [{"status", "sess", "evs": [{"name", "nc", "dc", "after": [ignored], "before": [event without message]}],
                    "eols", "tail", "trailing": [event without message]}]     (events as in http_gen)
          sse     {"pre": [{"k","d","crlf"}], "crlf": [bool per message], "cuts": [[...]], "ack": [piece index],
@@ -126,9 +128,17 @@ def dumps(style, v) -> str:
         if style.get("extra"):
             v = dict(v)
             v["x-verif-extra"] = {"a": None, "b": ""}
+        if style.get("nulls") and "id" in v and "method" not in v:
+            # `"error": null` next to a result, `"result": null` next to an error (absent and null mean the same)
+            v = dict(v)
+            v["error" if "result" in v else "result"] = None
         if style.get("order") == "rev":
             v = dict(reversed(list(v.items())))
-    return json.dumps(v, ensure_ascii=bool(style.get("ascii")), separators=((", ", ": ") if sp else (",", ":")))
+    text = json.dumps(v, ensure_ascii=bool(style.get("ascii")), separators=((", ", ": ") if sp else (",", ":")))
+    if style.get("dup") and isinstance(v, dict) and text.endswith("}") and "jsonrpc" in v:
+        # a duplicated member (the same name twice, the same value): every JSON parser of the carriers keeps one
+        text = text[:-1] + ("," + (" " if sp else "")) + json.dumps("jsonrpc") + (": " if sp else ":") + json.dumps("2.0") + "}"
+    return text
 
 
 def subst(v, tok):
@@ -386,6 +396,24 @@ def nth(lst, k, dflt):
 
 # ------------------------------------------------------------------------------- helpers
 
+class DictSub(dict):
+    """a dict subclass (what a caller's own mapping type looks like)"""
+
+
+class StrSub(str):
+    pass
+
+
+def subclassed(v):
+    if isinstance(v, dict):
+        return DictSub((StrSub(k), subclassed(x)) for k, x in v.items())
+    if isinstance(v, list):
+        return [subclassed(x) for x in v]
+    if isinstance(v, str):
+        return StrSub(v)
+    return v
+
+
 class StrRaises(Exception):
     def __str__(self):
         raise RuntimeError("str() of this exception raises")
@@ -428,6 +456,8 @@ async def call_helper(call, rd, wr, D_s, memo):
         params = memo["params"]  # the very object of the previous call
     else:
         params = copy.deepcopy(call.get("params"))
+    if call.get("subclassed") and params is not None:
+        params = subclassed(params)
     memo["params"] = params
     try:
         if h == "send_message":
@@ -437,6 +467,10 @@ async def call_helper(call, rd, wr, D_s, memo):
             if call.get("progress"):
                 async def cb(progress, total, message):
                     cbs.append([jsonable(progress), jsonable(total), jsonable(message)])
+                    if call.get("cb_writes"):
+                        # re-entrancy: the callback uses the very write stream its request went out on
+                        from chuk_mcp.protocol.messages.json_rpc_message import create_notification
+                        await wr.send(create_notification("notifications/x-from-callback", {"n": len(cbs)}))
                 kw["progress_callback"] = cb
                 extra["cbs"] = cbs
             res = await send_message(rd, wr, call.get("method", "tools/list"), params, timeout=D_s, **kw)
@@ -497,6 +531,8 @@ async def converse(rd, wr, case, obs, server, lo=0, hi=None):
     for i, x in list(enumerate(case["xs"]))[lo:hi]:
         wtap.current = i
         D_s = x.get("D", case.get("D", 5120)) * vloop.TICK
+        if x.get("idle"):
+            await anyio.sleep(x["idle"] * vloop.TICK)   # the session sits idle (hours of virtual time), then goes on
         obs["outcomes"].append(await call_helper(x["call"], tap, wtap, D_s, memo))
         await anyio.sleep(SETTLE_TICKS * vloop.TICK)
         obs["late"] += tap.drain()
@@ -725,6 +761,19 @@ async def client_session(ttype, params, case, obs, server):
                 await ops(MCPClient(transport))
 
 
+JUNK_MEMBERS = ["7", "null", "\"text\"", "{\"jsonrpc\":\"2.0\",\"method\":5}", "{\"jsonrpc\":\"2.0\",\"id\":[1],\"result\":{}}", "true"]
+
+
+def with_junk(texts, junk):
+    """batch members in between that are no JSON-RPC message for any parser (`junk`: indices into JUNK_MEMBERS)"""
+    if not junk:
+        return texts
+    out = list(texts[:-1])
+    for j in junk:
+        out.append(JUNK_MEMBERS[j % len(JUNK_MEMBERS)])
+    return out + [texts[-1]]
+
+
 def cut_local(block: bytes, cuts):
     return sse_h.cut_bytes(block, cuts or [])
 
@@ -756,7 +805,9 @@ async def run_stdio(case, obs):
                 continue
             k, x, texts = r
             if nth(w.get("batch"), k, False):
-                texts = ["[" + ",".join(texts) + "]"]  # the whole exchange as one JSON-RPC batch line
+                # the whole exchange as one JSON-RPC batch line — optionally with members in the middle that no
+                # parser of any carrier accepts (dropped alone)
+                texts = ["[" + ",".join(with_junk(texts, nth(w.get("junk"), k, None))) + "]"]
             block = b""
             for t in texts:
                 for bl in nth(w.get("blank"), sent["msgs"], None) or []:
@@ -865,19 +916,20 @@ async def run_http(case, obs, form):
         server.busy = server.start(loop.ticks, x.get("lat", 1))
         await at_future(loop, server.busy)
         headers = []
+        hn = lambda name: {"upper": name.upper(), "title": name.title()}.get(c.get("hname"), name)  # header names are case-insensitive
         if c.get("sess") is not None:
-            headers.append(("mcp-session-id", c["sess"]))
+            headers.append((hn("mcp-session-id"), c["sess"]))
         if form == "json":
             if c.get("all"):
-                text = "[" + ",".join(texts) + "]"  # the exchange as one JSON-RPC batch body
+                text = "[" + ",".join(with_junk(texts, c.get("junk"))) + "]"  # the exchange as one JSON-RPC batch body
             else:
                 text = ("[" + texts[-1] + "]") if c.get("batch") else texts[-1]
             raw = text.encode("utf-8")
-            headers.append(("content-type", "application/json"))
+            headers.append((hn("content-type"), c.get("mime", "application/json") + (c.get("ctp") or "")))
         else:
             text = G.sse_text(sse_body_of(texts, c))
-            raw = text.encode("utf-8")
-            headers.append(("content-type", "text/event-stream"))
+            raw = (b"\xef\xbb\xbf" if c.get("bom") else b"") + text.encode("utf-8")  # (a leading BOM is part of the event-stream format)
+            headers.append((hn("content-type"), c.get("mime", "text/event-stream") + (c.get("ctp") or "")))
         obs.setdefault("bodies", []).append({"status": c.get("status", 200), "text": text})
         return httpx.Response(c.get("status", 200), headers=headers, content=raw)
 
@@ -953,7 +1005,9 @@ async def run_sse(case, obs):
             sent["pos"] += len(b)
             sent["cuts"].append(sent["pos"])
             stream.push(b)
-            return httpx.Response(200, headers={"content-type": "text/event-stream"}, stream=ByteStream())
+            if w.get("bom"):
+                stream.q.appendleft(b"\xef\xbb\xbf")
+            return httpx.Response(200, headers={"content-type": "text/event-stream" + (w.get("ctp") or "")}, stream=ByteStream())
         try:
             body = json.loads(request.content.decode("utf-8"))
         except Exception:  # noqa
@@ -998,7 +1052,7 @@ async def run_sse(case, obs):
             server.busy = t2
             sent["acks"].append(None)
             await at_future(loop, t1 + 1)
-            return httpx.Response(200, headers={"content-type": "application/json"}, content=texts[nb].encode("utf-8"))
+            return httpx.Response(200, headers={"content-type": "application/json" + (w.get("ctp200") or "")}, content=texts[nb].encode("utf-8"))
         pieces = cut_local(block, nth(w.get("cuts"), k, []))
         a = min(max(int(nth(w.get("ack"), k, 0)), 0), len(pieces))
         done = sum(len(p) for p in pieces[:a])
@@ -1029,6 +1083,57 @@ async def run_sse(case, obs):
 
 def fresh_obs():
     return {"transcript": [], "outcomes": [], "ids": [], "sent": [], "sent_calls": [], "requests": [], "texts": [], "shape": [], "late": 0}
+
+
+def formatting_debug_logging():
+    """the host has logging configured at DEBUG with a handler that FORMATS every record (a NullHandler
+    never does, so `%`-style argument mismatches and failing reprs of arguments stay invisible with it)"""
+    import logging
+
+    class Formatting(logging.Handler):
+        def emit(self, record):
+            try:  # (as every handler of the standard library does)
+                self.format(record)
+            except Exception:  # noqa
+                self.handleError(record)
+
+    root = logging.getLogger()
+    prev_disable, prev_level, prev_handlers, prev_raise = root.manager.disable, root.level, list(root.handlers), logging.raiseExceptions
+    h = Formatting()
+    h.setFormatter(logging.Formatter("%(asctime)s %(name)s %(levelname)s %(message)s"))
+    root.handlers[:] = [h]
+    root.setLevel(logging.DEBUG)
+    logging.disable(logging.NOTSET)
+
+    def restore():
+        logging.disable(prev_disable)
+        root.setLevel(prev_level)
+        root.handlers[:] = prev_handlers
+        logging.raiseExceptions = prev_raise
+    return restore
+
+
+class FailingStream:
+    encoding = "utf-8"
+
+    def write(self, s):
+        raise OSError("scripted: this stream cannot be written")
+
+    def flush(self):
+        raise OSError("scripted: this stream cannot be flushed")
+
+
+def odd_stderr(kind):
+    import io
+    if kind == "closed":
+        f = io.StringIO()
+        f.close()
+        return f
+    if kind == "ascii":
+        return io.TextIOWrapper(io.BytesIO(), encoding="ascii", errors="strict")
+    if kind == "failing":
+        return FailingStream()
+    return io.StringIO()
 
 
 def run_carrier(case, carrier):
@@ -1084,14 +1189,17 @@ def run_carrier(case, carrier):
     uuid.uuid4 = fake_uuid4
     real_stderr = sys.stderr
     try:
-        if case.get("debug"):
+        if case.get("debug") == "format":
+            restore_logging = formatting_debug_logging()
+        elif case.get("debug"):
             from .await_h import _debug_logging
             restore_logging = _debug_logging()
         if env_token is not None:
             os.environ["MCP_BEARER_TOKEN"] = env_token
-        if case.get("quiet_stderr"):
-            import io
-            sys.stderr = io.StringIO()  # (a transport prints the traceback of a message it cannot serialise)
+        if case.get("stderr") or case.get("quiet_stderr"):
+            # (a transport prints the traceback of a message it cannot serialise); the host's stderr may be closed,
+            # ascii-only or failing
+            sys.stderr = odd_stderr(case.get("stderr") or "quiet")
         with http_h._MockPatch(dispatch_http):
             dl = sse_h.guarded_run(main, tie=case.get("tie", "events"))
         if dl is not None:
